@@ -186,6 +186,20 @@ def fparts(v):
 MAX_VIOL_PER_CASE = 2
 
 
+class Claim:
+    """oracle-side marker: the code's value must satisfy  value <op> 0  (instead of equalling a reference)"""
+
+    def __init__(self, op):
+        self.op = op
+
+    def __repr__(self):
+        return f"Claim({self.op} 0)"
+
+
+POS, NONNEG, NEG, NONPOS = Claim(">"), Claim(">="), Claim("<"), Claim("<=")
+_NEGATE = {">": "<=", ">=": "<", "<": ">=", "<=": ">"}
+
+
 class CaseResult(dict):
     pass
 
@@ -258,6 +272,11 @@ def run_case(case, tier="quick", seed=0, do_replay=True):
                     res["harness_errors"].append(f"label {key} missing from oracle")
                     continue
                 w = fr[key]
+                if isinstance(w, Claim):
+                    res["obligations"] += 1
+                    if _decide_sign(case, ctx, res, mk, key, lift(ctx, v), w, do_replay) == "unsat":
+                        res["discharged"] += 1
+                    continue
                 pv, pw = parts(ctx, v), parts(ctx, w)
                 if len(pv) != len(pw):
                     pv = pv if len(pv) == 2 else [("re", pv[0][1]), ("im", core.ZERO(ctx))]
@@ -335,6 +354,24 @@ def _decide_equal(case, ctx, res, mk, key, suf, x, y, do_replay):
     if status == "sat":
         return _handle_sat(case, ctx, res, mk, key, suf, model, None, do_replay)
     res["inconclusive"].append({"key": _k(key, suf), "why": "solver unknown/timeout"})
+    return "unknown"
+
+
+def _decide_sign(case, ctx, res, mk, key, x, claim, do_replay):
+    """obligation  x <claim.op> 0 : unsat of the negation"""
+    x = core.materialise(x)
+    if x.is_const:
+        ok = {">": x.k > 0, ">=": x.k >= 0, "<": x.k < 0, "<=": x.k <= 0}[claim.op]
+        if ok:
+            return "unsat"
+        return _handle_sat(case, ctx, res, mk, key, "", {}, f"constant {x.k} violates {claim}", do_replay)
+    neg = core.sign_formula(x, _NEGATE[claim.op])
+    status, model = ctx.check(neg, timeout=case.query_timeout, kind="obligation", want_model=True)
+    if status == "unsat":
+        return "unsat"
+    if status == "sat":
+        return _handle_sat(case, ctx, res, mk, key, "", model, f"sign claim {claim}", do_replay)
+    res["inconclusive"].append({"key": _k(key, ""), "why": "solver unknown/timeout (sign claim)"})
     return "unknown"
 
 
@@ -476,6 +513,8 @@ def _canary(case, ctx, I, mk, ops, paths):
             for key, v in fo[:64]:
                 if key not in fr:
                     continue
+                if isinstance(fr[key], Claim):
+                    continue
                 for (suf, x), (_, y) in zip(parts(ctx, v), parts(ctx, fr[key])):
                     if _numeric_witness(ctx, x, y) is not None:
                         return "killed"
@@ -525,7 +564,7 @@ def _conformance(case, ctx, mk, paths):
         except Exception as e:  # noqa: BLE001
             return {"error": f"numeric eval failed: {e}"}
         b = complex(fo[key]) if isinstance(fo[key], (complex, real_np.complexfloating)) else float(fo[key])
-        dev = abs(a - b) / max(abs(a), abs(b), 1e-6)
+        dev = abs(a - b) / max(abs(a), abs(b), 1e-3)
         worst = max(worst, dev)
         n += 1
     return {"points": 1, "elements": n, "max_rel_dev": worst, "ok": worst < 1e-7}
